@@ -2229,6 +2229,33 @@ impl<'s> Semantics<'s> {
         Ok(())
     }
 
+    /// movd: moves 32 bits between a general-purpose register / memory and the low doubleword of an
+    /// XMM register; the destination is zero-extended, a wider source is truncated.
+    pub fn movd(&self, control_flow_graph: &mut ControlFlowGraph) -> Result<(), Error> {
+        let detail = self.details()?;
+
+        let block_index = {
+            let block = control_flow_graph.new_block()?;
+
+            let src = self.operand_load(block, &detail.operands[1])?;
+            let dst_bits = (detail.operands[0].size as usize) * 8;
+            let value = match src.bits().cmp(&dst_bits) {
+                std::cmp::Ordering::Less => Expr::zext(dst_bits, src)?,
+                std::cmp::Ordering::Greater => Expr::trun(dst_bits, src)?,
+                std::cmp::Ordering::Equal => src,
+            };
+
+            self.operand_store(block, &detail.operands[0], value)?;
+
+            block.index()
+        };
+
+        control_flow_graph.set_entry(block_index)?;
+        control_flow_graph.set_exit(block_index)?;
+
+        Ok(())
+    }
+
     pub fn movhpd(&self, control_flow_graph: &mut ControlFlowGraph) -> Result<(), Error> {
         let detail = self.details()?;
 
